@@ -104,6 +104,6 @@ fn check(c: &LayoutCase, obs: &mut Obs) -> Verdict {
 pub fn def() -> PropDef {
     let mut d = PropDef::new("C07", "a generated input (ledger generator, one file, canonical columns) and a generated re-layout of the same rows: 1-5 files in order, per-file column permutation, header case/padding variants, 0-3 unrecognised columns with junk cells (including cells starting with '#'), memos starting with '#', '=' or a quote, optional columns absent when empty, legacy 'date' header, padded cells, CRLF line ends, and a random row permutation constrained to keep the relative order of rows of one security settling on one date. Every cell of every security table, footer, aggregate table and (in half the cases) the total-costs tables must be identical in full precision; notes compared as multisets. Non-trivial = >= 2 files AND permuted columns AND at least one pair of same-security same-day rows. Distinct = distinct case content.");
     d.assumptions = vec!["the order of notes is C09's business and ignored here"];
-    d.subs.push(Box::new(Sub::<LayoutCase> { name: "relayout", cases_quick: 20_000, cases_thorough: 800_000, strategy: Box::new(strategy), to_json: LayoutCase::to_json, from_json: LayoutCase::from_json, check }));
+    d.subs.push(Box::new(Sub::<LayoutCase> { name: "relayout", cases_quick: 50_000, cases_thorough: 800_000, strategy: Box::new(strategy), to_json: LayoutCase::to_json, from_json: LayoutCase::from_json, check }));
     d
 }
